@@ -51,6 +51,9 @@ func (n *Names) Value(v machine.Value) string {
 	case machine.Asset:
 		return "(VAsset " + n.S(string(v)) + ")"
 	case *machine.MonetaryInt:
+		if v == nil {
+			return "(VNumber 0%Z (* nil *))"
+		}
 		return "(VNumber " + Z((*big.Int)(v)) + ")"
 	case machine.String:
 		return "(VString " + n.St(string(v)) + ")"
